@@ -31,6 +31,7 @@ and, for ufs/aufs, without any exclusion:
   * `ufs_post_crash_hit_was_complete_pre_crash`: after ANY prefix of ANY event history the run time can produce (torn
     file writes are shorter appends, a torn log record is no event), a hit after the dirty-log rebuild delivers all
     bytes of one completely written, logged and not yet released object of that key;
+  * `ufs_post_crash_hit_from_consistent_state`: the same from any consistent (ghost, disk) starting point;
   * `ufs_crash_prefix_allowed`, `ufs_torn_append_allowed`: prefixes and torn appends of allowed histories are allowed.
 -/
 import SquidModel.Rock.CrashTxn
@@ -182,64 +183,20 @@ open SquidModel.Ufs.Crash in
     and exactly as many as the index promises. -/
 theorem ufs_post_crash_hit_was_complete_pre_crash (evs : List Ev) (g : Ghost) (hw : wfRun [] evs = some g) (k : Ufs.Crash.Key)
     (sv : Served) (hs : Ufs.Crash.serve (applyAll Disk.empty evs) k = some sv) :
-    ∃ o ∈ g, o.id = sv.store ∧ o.key = k ∧ o.isAdded = true ∧ sv.served = o.total ∧ sv.promised = o.total := by
-  have hinv := uinv_run uinv_empty hw
-  unfold Ufs.Crash.serve at hs
-  split at hs
-  · cases hs
-  · rename_i e he
-    split at hs
-    · cases hs
-    · rename_i fl hfl
-      split at hs
-      · cases hs
-      · split at hs
-        · cases hs
-        · rename_i _ hkey
-          cases hs
-          obtain ⟨o, ho, hph, hid, hk, hf, ht⟩ := hinv.index k e he
-          have holds : o.holds = true := by simp [Out.holds, hph]
-          obtain ⟨a1, _, _, a4⟩ := hinv.files o ho holds fl (by rw [hf]; exact hfl)
-          refine ⟨o, ho, a1.symm, hk, by simp [Out.isAdded, hph], ?_, ht.symm⟩
-          simp only
-          rw [a4 _ hph, ht]
-          exact Nat.min_self _
+    ∃ o ∈ g, o.id = sv.store ∧ o.key = k ∧ o.isAdded = true ∧ sv.served = o.total ∧ sv.promised = o.total :=
+  serve_complete (uinv_run uinv_empty hw) k sv hs
+
+open SquidModel.Ufs.Crash in
+/-- The same from ANY consistent starting point (ghost state `g0` describing disk `d0`, e.g. what a restart leaves): the
+    statement is not tied to an empty cache_dir. -/
+theorem ufs_post_crash_hit_from_consistent_state (g0 : Ghost) (d0 : Disk) (h0 : UInv g0 d0) (evs : List Ev) (g : Ghost)
+    (hw : wfRun g0 evs = some g) (k : Ufs.Crash.Key) (sv : Served) (hs : Ufs.Crash.serve (applyAll d0 evs) k = some sv) :
+    ∃ o ∈ g, o.id = sv.store ∧ o.key = k ∧ o.isAdded = true ∧ sv.served = o.total ∧ sv.promised = o.total :=
+  serve_complete (uinv_run h0 hw) k sv hs
 
 open SquidModel.Ufs.Crash in
 /-- a crash keeps a prefix of the history: still an allowed history -/
 theorem ufs_crash_prefix_allowed (pre suf : List Ev) (h : Wf (pre ++ suf)) : Wf pre := wfRun_prefix h
-
-open SquidModel.Ufs.Crash in
-theorem wfRun_snoc (g : Ghost) (pre : List Ev) (e : Ev) :
-    wfRun g (pre ++ [e]) = (wfRun g pre).bind (fun g' => wfStep g' e) := by
-  induction pre generalizing g with
-  | nil => simp only [List.nil_append, wfRun, Option.bind]; cases wfStep g e <;> rfl
-  | cons x rest ih =>
-    simp only [List.cons_append, wfRun]
-    cases wfStep g x with
-    | none => rfl
-    | some g1 => exact ih g1
-
-open SquidModel.Ufs.Crash in
-theorem wfStep_shorter_append (g g1 : Ghost) (f : Int) (n n' : Nat) (hn : n' ≤ n) (h : wfStep g (.append f n) = some g1) :
-    (wfStep g (.append f n')).isSome = true := by
-  simp only [wfStep] at h ⊢
-  cases hfind : g.find? (fun o => o.holds && o.fileno == f) with
-  | none => rw [hfind] at h; cases h
-  | some o =>
-    rw [hfind] at h
-    simp only at h ⊢
-    cases hph : o.phase with
-    | writing b =>
-      rw [hph] at h
-      simp only at h ⊢
-      split at h
-      · rename_i hle
-        have : b + n' ≤ o.total := by omega
-        simp [this]
-      · cases h
-    | added lr => rw [hph] at h; cases h
-    | released => rw [hph] at h; cases h
 
 open SquidModel.Ufs.Crash in
 /-- a torn file write is a shorter append: still an allowed history -/
